@@ -42,7 +42,7 @@ Fixpoint sk_recv (ps : pieces) (err : bool) (count : Z) : Z * bytes * pieces :=
    error (-1). *)
 Fixpoint sk_read (ps : pieces) (err : bool) (count : Z) : Z * bytes * pieces :=
   match ps with
-  | [] => ((if err then -1 else 0), [], [])
+  | [] => ((if count <=? 0 then 0 else if err then -1 else 0), [], [])
   | p :: rest =>
     if count <=? 0 then (0, [], ps)
     else if count <? zlen p then (count, ztake count p, zdrop count p :: rest)
@@ -283,8 +283,12 @@ Fixpoint crs_read_loop (fuel : nat) (s : crs) (count : Z) (ret : Z) (out : bytes
 
 Definition crs_fuel (s : crs) : nat := S (S (length (c_line s) + length (concat (c_ps s)))).
 
+(* any fuel >= crs_fuel s gives the same result (C13_Proofs.crs_read_f_fuel_mono); the runner
+   computes the fuel of the initial state once and reuses it for every later read *)
+Definition crs_read_f (fuel : nat) (s : crs) (count : Z) : option (Z * bytes * crs) :=
+  crs_read_loop fuel s count 0 [].
 Definition crs_read (s : crs) (count : Z) : option (Z * bytes * crs) :=
-  crs_read_loop (crs_fuel s) s count 0 [].
+  crs_read_f (crs_fuel s) s count.
 
 (* close 128-131 *)
 Definition crs_close (s : crs) : Z := if c_finish s then 0 else -1.
